@@ -65,7 +65,7 @@ CHECKS = {
     "C09": ("exploration",
             "generated PDO configurations x device pre-states against a strict CiA 301 PDO-configuration device model "
             "that refuses out-of-order writes and logs every write; trace predicate from the property; read-back on "
-            "a fresh node and subscription check",
+            "a fresh node and subscription check; 1..4 PDOs per dictionary (both directions, ARRAY members, shorter bit lengths) and earlier configurations on the same node object",
             "trusts the device model in harness/c09.py; invalidate-and-change in one write is accepted",
             "model-based property testing: Hypothesis configurations against a strict reference device"),
     "C10": ("exploration",
